@@ -149,20 +149,7 @@ def check(ctx: Ctx):
         and "== max_neighbors" in norm(tl[0].value) and "[self.name]" in norm(tl[0].value)
     ctx.check(okt, "R-EXCLUSIVE", "MGM2: tie list = neighbours with the same best gain + self, sorted", hg2, tl[0] if tl else hg2.node, "")
     # committed: go decision
-    cm = [n for n in walk_no_nested(hg2.node) if isinstance(n, ast.Assign) and norm(n.targets[0]) == "self._can_move"]
-    posts = [c for c in walk_no_nested(hg2.node) if isinstance(c, ast.Call) and is_self_attr(c.func, "post_msg") and isinstance(c.args[1], ast.Call) and call_name(c.args[1]) == "Mgm2GoMessage"]
-    okp = len(cm) == 2 and len(posts) == 2
-    if okp:
-        for a in cm:
-            fs = G.facts(ff2, a)
-            val = norm(a.value)
-            lic = any(t.startswith("neigh_gains == [] or self._is_better_gain(self._potential_gain, self._best_gain(neigh_gains))") and p for t, p in fs)
-            nol = ("neigh_gains == []", False) in fs and ("self._is_better_gain(self._potential_gain, self._best_gain(neigh_gains))", False) in fs
-            okp = okp and ("self._committed", True) in fs and ((val == "True" and lic) or (val == "False" and nol))
-            blk = [p_ for p_ in posts if G.facts(ff2, p_) == fs]
-            okp = okp and len(blk) == 1 and norm(blk[0].args[1].args[0]) == val and norm(blk[0].args[0]) == "self._partner.name"
-    ctx.check(okp, "R-PAIR", "MGM2: local go iff the pair gain is strictly best among the other neighbours; the same decision is sent to the partner", hg2,
-              cm[0] if cm else hg2.node, "_can_move and the go message must carry the same decision, taken against all neighbours but the partner")
+    G.check_go_decision(ctx, hg2, "R-PAIR")
     ffg2 = FuncFacts(go2.node)
     mv = [c for c in walk_no_nested(go2.node) if isinstance(c, ast.Call) and is_self_attr(c.func, "value_selection")]
     okg = len(mv) == 1 and {(f"{go2.params[2]}.go", True), ("self._can_move", True)} <= G.facts(ffg2, mv[0]) and norm(mv[0].args[0]) == "self._potential_value"
